@@ -14,6 +14,7 @@ concrete pixel values by a per-mode value map with several concrete representati
 make_maskable_buffer, a real PyramidIO in a temporary directory - and compares the projected real state with TLC's
 state after every call.  All expected states come out of TLC.
 """
+import argparse
 import itertools
 import math
 import os
@@ -32,8 +33,9 @@ NAN = float("nan")
 # abstract value -> concrete pixel; "u" = the concrete representatives of UNDEFINED used when the harness builds an
 # image (the projection accepts anything the mode class calls undefined)
 VALUES = {
-    "RGB": {"dtype": "u1", "ch": 3, 1: (10, 20, 30), 2: (200, 100, 50), "u": []},
-    "RGBA": {"dtype": "u1", "ch": 4, 1: (10, 20, 30, 255), 2: (200, 100, 50, 1), "u": [(0, 0, 0, 0), (9, 8, 7, 0)]},
+    # value 1 of the colour modes is pure black: a DEFINED colour (only alpha = 0 is undefined), like 0.0 for the floats
+    "RGB": {"dtype": "u1", "ch": 3, 1: (0, 0, 0), 2: (200, 100, 50), "u": []},
+    "RGBA": {"dtype": "u1", "ch": 4, 1: (0, 0, 0, 255), 2: (200, 100, 50, 1), "u": [(0, 0, 0, 0), (9, 8, 7, 0)]},
     # "alt2": further concrete representatives of abstract value 2 - infinities are DEFINED values (only NaN is undefined)
     "F32": {"dtype": "f4", "ch": 0, 1: (0.0,), 2: (3.5e10,), "u": [(NAN,)], "alt2": [(float("inf"),), (float("-inf"),)]},
     "F64": {"dtype": "f8", "ch": 0, 1: (0.0,), 2: (1.0000000000001e300,), "u": [(NAN,)], "alt2": [(float("inf"),), (float("-inf"),)]},
@@ -43,7 +45,7 @@ VALUES = {
     "I16": {"dtype": "i2", "ch": 0, 1: (300,), 2: (30000,), "u": [(0,)]},
     "I32": {"dtype": "i4", "ch": 0, 1: (70000,), 2: (2000000000,), "u": [(0,)]},
     # the maskable buffer of an RGB image: RGBA, a defined pixel is the opaque colour
-    "RGB-buffer": {"dtype": "u1", "ch": 4, 1: (10, 20, 30, 255), 2: (200, 100, 50, 255), "u": [(0, 0, 0, 0), (9, 8, 7, 0)]},
+    "RGB-buffer": {"dtype": "u1", "ch": 4, 1: (0, 0, 0, 255), 2: (200, 100, 50, 255), "u": [(0, 0, 0, 0), (9, 8, 7, 0)]},
 }
 
 
@@ -241,6 +243,7 @@ PROPERTY MissingReadsAbsentOrMasked
 PROPERTY OtherTilesStoredAsWritten
 PROPERTY StoredTileReadsBackIdentical
 PROPERTY ReadsDoNotTouchTheFile
+PROPERTY OtherLoadersDoNotMatter
 """
 
 
@@ -460,12 +463,12 @@ def replay_files(args):
     repo.setup()
     warnings.simplefilter("ignore")
     import numpy as np
-    from toasty.image import Image, ImageMode
+    from toasty.image import Image, ImageLoader, ImageMode
     from toasty.pyramid import PyramidIO, Pos
     T = tables(path)
     h, w, V = T["h"], T["w"], 2
     n, base = h * w, V + 1
-    table = T["fmt"][fmt]             # (mode, code) -> {(op, mode, code): (fmode, fcode, gkind, gmode, gcode, gsz)}
+    table = T["fmt"][fmt]             # (env, mode, code) -> {(op, mode, code): (env after, fmode, fcode, gkind, gmode, gcode, gsz)}
     maps = dict((m, ValueMap(m)) for m in MODES)
     problems = []
     seen_keys = {}
@@ -478,7 +481,28 @@ def replay_files(args):
     pos = Pos(2, 1, 3)
     path = pio.tile_path(pos)
     ABSENT = ("none", 0)
-    state = {"cur": ABSENT, "written": None}
+    state = {"cur": ABSENT, "written": None, "env": "fresh", "others": []}
+
+    def lookup(call):
+        return table[(state["env"],) + state["cur"]][call][1:]
+
+    def do_configure(opt):
+        """Some other ImageLoader of this process is configured from command-line options (as the tiling commands do for
+        their input images): with every option, or with the defaults.  No tile may notice."""
+        exp = table[(state["env"],) + state["cur"]][("configure", opt, 0)]
+        parser = argparse.ArgumentParser()
+        ImageLoader.add_arguments(parser)
+        argv = [] if opt == "dflt" else ["--black-to-transparent", "--colorspace-processing", "none", "--crop", "1,2",
+                                         "--psd-single-layer", "0"]
+        state["others"].append(ImageLoader.create_from_args(parser.parse_args(argv)))
+        del state["others"][:-2]
+        stats["calls"] += 1
+        stats["configures"] = stats.get("configures", 0) + 1
+        state["env"] = exp[0]
+        if (exp[1], exp[2]) != state["cur"]:
+            raise RuntimeError("TLC table: configure changes the file")
+        for c in rcalls:
+            do_read(c)
 
     def bad(key, msg, rep):
         stats["bad"] += 1
@@ -487,13 +511,13 @@ def replay_files(args):
             problems.append(("V", key, msg, rep))
 
     def hist(call):
-        return {"format": fmt, "file_before": [state["cur"][0], list(decode(state["cur"][1], n, base))],
+        return {"format": fmt, "other_loaders_configured": state["env"],
+                "file_before": [state["cur"][0], list(decode(state["cur"][1], n, base))],
                 "call": [call[0], call[1], list(decode(call[2], n, base))]}
 
     def do_read(call):
         """ReadNone / ReadMasked from the current state; compares with the specified result."""
-        exp = table[state["cur"]][call]
-        fmode, fcode, gkind, gmode, gcode, gsz = exp
+        fmode, fcode, gkind, gmode, gcode, gsz = lookup(call)
         stats["calls"] += 1
         stats["reads"] += 1
         try:
@@ -546,7 +570,7 @@ def replay_files(args):
                     % (gmode, wr.tolist(), np.asarray(arr).tolist()), hist(call))
 
     def do_write(call, salt):
-        exp = table[state["cur"]][call]
+        exp = lookup(call)
         fmode, fcode = exp[0], exp[1]
         tile = decode(call[2], n, base)
         arr = maps[call[1]].concrete(tile, h, w, salt=salt)
@@ -587,16 +611,21 @@ def replay_files(args):
         do_read(("readnone", "none", 0))
 
     keys = sorted(table)
-    wcalls = sorted(c for c in table[ABSENT] if c[0] == "write")
-    rcalls = sorted(c for c in table[ABSENT] if c[0] != "write")
+    wcalls = sorted(c for c in table[("fresh",) + ABSENT] if c[0] == "write")
+    rcalls = sorted(c for c in table[("fresh",) + ABSENT] if c[0] in ("readnone", "readmasked"))
     # fresh directory: every read of the missing tile
     if part == 0:
         for c in rcalls:
             do_read(c)
     # anchor calls a (taking the file to res(a)) x target calls c >= a:  ... a, c, a ... covers (res(a), c) and (res(c), a)
     anchors = list(range(0, len(wcalls), anchor_step))
-    for ai in anchors[part::nparts]:
+    for i, ai in enumerate(anchors[part::nparts]):
         a = wcalls[ai]
+        # every third anchor: other loaders get every option / the defaults first (the rest of the history runs in that process)
+        if i % 3 == 1:
+            do_configure("all")
+        elif i % 3 == 2:
+            do_configure("dflt")
         do_write(a, ai)
         for c in rcalls:
             do_read(c)
@@ -630,11 +659,15 @@ def replay_pairs(args):
     bmap = ValueMap("RGB-buffer" if mode == "RGB" else mode)
     emode = getattr(ImageMode, mode)
     sources = [Image.from_array(imap.concrete(decode(c, n, base), h, w, salt=i)) for i, c in enumerate(src_codes)]
+    # the same tiles in the buffer's own mode, and an all-undefined one (stand-ins where an array is read-only, see execute)
+    bsources = [Image.from_array(bmap.concrete(decode(c, n, base), h, w, salt=i)) for i, c in enumerate(src_codes)]
+    bnothing = Image.from_array(bmap.concrete((0,) * n, h, w))
     corner = (slice(None), slice(None), slice(0, h), slice(0, w))
     positions = {1: Pos(2, 1, 3), 2: Pos(2, 2, 0)}
     problems = []
     seen_keys = {}
-    stats = {"calls": 0, "resets": 0, "bad": 0, "via_update_image": 0, "nested": 0, "states": len(graph)}
+    stats = {"calls": 0, "resets": 0, "bad": 0, "via_update_image": 0, "nested": 0, "direct_assignments": 0, "readonly_standins": 0,
+             "states": len(graph)}
     R = {}
 
     def bad(key, msg, rep):
@@ -689,8 +722,19 @@ def replay_pairs(args):
             buf = R["hand"][k]["buf"]
             if op == "fill":
                 sources[i - 1].fill_into_maskable_buffer(buf, *corner)
-            else:
+            elif op == "update":
                 sources[i - 1].update_into_maskable_buffer(buf, *corner)
+            elif not buf.asarray().flags.writeable:
+                # a tile loaded through PIL hands out a read-only array (clear() documents that it needs a writable one):
+                # the same abstract step is taken through fill instead
+                stats["readonly_standins"] += 1
+                (bsources[i - 1] if op == "set" else bnothing).fill_into_maskable_buffer(buf, *corner)
+            elif op == "set":
+                # pixels assigned directly through the array the buffer hands out
+                buf.asarray()[:h, :w] = bmap.concrete(decode(src_codes[i - 1], n, base), h, w, salt=stats["calls"])
+                stats["direct_assignments"] += 1
+            else:
+                buf.clear()
         else:
             k = call[1]
             hd = R["hand"].pop(k)
@@ -856,7 +900,7 @@ def dump_file_tables(ctx, r, job):
         ed = {}
         for e in rec["edges"]:
             ed[(e[0], e[1], e[2])] = tuple(e[3:])
-        t[(rec["mode"], rec["px"])] = ed
+        t[(rec["env"], rec["mode"], rec["px"])] = ed
         nedge += len(ed)
     path = os.path.join(ctx.scratch, "%s.pkl" % job["name"])
     with open(path, "wb") as f:
@@ -968,7 +1012,8 @@ def _run(ctx, pool, rng, quick):
             pm["chains"] += stats["loads"]
             pm["longest_chain"] = max(pm["longest_chain"], stats["chain_max"])
         elif kind == "pair":
-            per_pair[what] = dict((k, stats[k]) for k in ("calls", "states", "via_update_image", "nested", "resets", "unvisited"))
+            per_pair[what] = dict((k, stats[k]) for k in ("calls", "states", "via_update_image", "nested", "direct_assignments",
+                                                          "readonly_standins", "resets", "unvisited"))
             if stats["unvisited"] and not stats["bad"]:
                 ctx.machinery("two-position replay left %d transitions unvisited for %s" % (stats["unvisited"], what))
         else:
@@ -995,8 +1040,9 @@ def _run(ctx, pool, rng, quick):
     for fmt in sorted(ftab)[:2]:
         key = sorted(ftab[fmt])[1]
         call = sorted(c for c in ftab[fmt][key] if c[0] == "write")[0]
-        ctx.sample({"format": fmt, "file": [key[0], decode(key[1], 4, 3)], "call": [call[0], call[1], decode(call[2], 4, 3)],
-                    "specified_file_after": [ftab[fmt][key][call][0], decode(ftab[fmt][key][call][1], 4, 3)]})
+        ctx.sample({"format": fmt, "other_loaders": key[0], "file": [key[1], decode(key[2], 4, 3)],
+                    "call": [call[0], call[1], decode(call[2], 4, 3)],
+                    "specified_file_after": [ftab[fmt][key][call][1], decode(ftab[fmt][key][call][2], 4, 3)]})
     ctx.assume("integer modes are exercised with non-negative values only (the statement's domain for the larger-value rule)")
     ctx.assume("'an all-undefined tile is never stored' is asserted for the modes that can represent one (RGBA, F32, F64, F16x3); "
                "is_completely_masked is False by design for RGB and the integer modes and nothing is asserted about storing all-zero tiles")
